@@ -108,12 +108,10 @@ impl Parser for GoModParser {
                 // Byte offset of this line in the document (`line` borrows from
                 // `content`, so this is exact for CRLF line endings too)
                 let line_start = line.as_ptr() as usize - content.as_ptr() as usize;
-                // Find actual position in the original line (not trimmed)
-                let require_pos = line.find("require").unwrap_or(0);
-                let version_pos_in_line = line[require_pos..]
-                    .find(version)
-                    .map(|p| require_pos + p)
-                    .unwrap_or(0);
+                // The match is on the trimmed line: add the width of the leading white
+                // space to get the position in the original line
+                let lead = line.len() - line.trim_start().len();
+                let version_pos_in_line = lead + version_match.start();
                 let version_start = line_start + version_pos_in_line;
                 let version_end = version_start + version.len();
 
